@@ -1980,6 +1980,13 @@ def rule_owning_classes_not_copied(prog, fixture=False):
     return r
 
 
+def _shared_device_rule(prog):
+    from . import c04
+    r = c04.rule_surface_keeps_its_device(prog)
+    r.rule = "R-C07-17"      # no drive is attached without a device: dump-sector would dereference a null drive
+    return r
+
+
 def run(ctx):
     from . import c06, c10
     prog = ctx.prog("dfs", "N")
@@ -1988,7 +1995,8 @@ def run(ctx):
             rule_diagnosed_failures(prog), rule_nonempty_access(prog),
             c06.rule_track_checks_unconditional(prog, rule_id="R-C07-11"),
             c10.rule_counters_after_reset(prog, rule_id="R-C07-12"), rule_side_effect_results(prog),
-            rule_rewind_changes_state(prog), rule_bitstream_access(prog), rule_owning_classes_not_copied(prog)]
+            rule_rewind_changes_state(prog), rule_bitstream_access(prog), rule_owning_classes_not_copied(prog),
+            _shared_device_rule(prog)]
 
 
 SELFTESTS = [
